@@ -16,7 +16,8 @@ EXPLANATION = (
     "arm hiding a variant; that the serde trait surfaces are complete (R13.1: no provided method whose serde default is an "
     "unconditional 'not supported' error is left un-overridden — the i128/u128 defect class); that the coercions use the "
     "Conjure spellings and the padded standard Base64 engine (R13.3) and every key coercion parses its own type and calls "
-    "its own visitor method (13 rows); Option handling (R13.4). NOT decided: the inverse law for all values, BTreeMap/Vec "
+    "its own visitor method (13 rows); Option handling (R13.4); the key deserializer hands itself (not the bare Any) to visit_some / "
+    "visit_newtype_struct / visit_enum (R13.5). NOT decided: the inverse law for all values, BTreeMap/Vec "
     "serde impls of std, float formatting.")
 
 
@@ -96,6 +97,14 @@ def run(ctx):
         if tr == "serde_core::de::Deserializer":
             for m in ("deserialize_i128", "deserialize_u128"):
                 ctx.check(m in i["items"], "R13.1", f"{i['file']}:{i['line']}", f"{a}|{m}", f"{a} leaves {m} to serde's default (\"i128 is not supported\")", instance=f"{a.split('::')[-1]}::{m} overridden")
+        if tr == "serde_core::de::Deserializer" and (a.endswith("::Any") or a.endswith("KeyDeserializer")):
+            # serde-derived newtype structs only implement visit_newtype_struct / visit_seq: a carrier that answers
+            # deserialize_newtype_struct through deserialize_any (visit_u32, visit_str, ...) cannot give them back
+            nb = [b for b in c.bodies if b.trait == tr and ty_adt(b.self_ty) == a and b.name == "deserialize_newtype_struct"]
+            ok = len(nb) == 1 and any(t["call"]["def"] == "serde_core::de::Visitor::visit_newtype_struct" for _, t in nb[0].calls())
+            ctx.check(ok, "R13.1", nb[0].loc() if nb else f"{i['file']}:{i['line']}", f"{a}|deserialize_newtype_struct|visit_newtype_struct",
+                      f"{a}::deserialize_newtype_struct does not call visit_newtype_struct (it answers through deserialize_any): a value of a serde-derived newtype struct `struct Id(u32)` converted to Any cannot be converted back (\"invalid type: integer, expected tuple struct\")",
+                      instance=f"{a.split('::')[-1]}::deserialize_newtype_struct -> visit_newtype_struct")
         if tr == "serde_core::ser::Serializer":
             for m in ("serialize_i128", "serialize_u128"):
                 ctx.check(m in i["items"], "R13.1", f"{i['file']}:{i['line']}", f"{a}|{m}", f"{a} leaves {m} to serde's default", instance=f"{a.split('::')[-1]}::{m} overridden")
@@ -184,7 +193,8 @@ def run(ctx):
                       f"Deserializer for Any: variant {v} is replayed through {sorted(got)}{' via a wildcard arm' if v in wild else ''}, canonical: {spec['replay'][v]}",
                       instance=f"Any::{v} -> {spec['replay'][v]}")
     # every other deserialize_* forwards to deserialize_any (or is a checked coercion)
-    coercions = {"deserialize_f32", "deserialize_f64", "deserialize_bytes", "deserialize_byte_buf", "deserialize_option", "deserialize_enum", "deserialize_any"}
+    # deserialize_newtype_struct hands the carrier itself to visit_newtype_struct (decided by R13.1)
+    coercions = {"deserialize_f32", "deserialize_f64", "deserialize_bytes", "deserialize_byte_buf", "deserialize_option", "deserialize_enum", "deserialize_any", "deserialize_newtype_struct"}
     for name, b in sorted(dm.items()):
         if name in coercions or not name.startswith("deserialize_"):
             continue
@@ -247,3 +257,20 @@ def run(ctx):
         good = m.get("Null") == {"visit_none"} and all(m.get(v) == {"visit_some"} for v in names if v != "Null")
         ctx.check(good, "R13.4", b.loc(), f"option|{owner}", f"{owner}::deserialize_option: Null must map to visit_none and every other variant to visit_some; got Null->{sorted(m.get('Null', []))}",
                   instance=f"{owner}::deserialize_option: Null -> visit_none, else visit_some(self)")
+
+    # ---------------- R13.5 the key deserializer stays in force below optional / newtype / enum keys
+    KD = "conjure_object::any::de::KeyDeserializer"
+    nk = 0
+    co = ctx.F.crate("conjure_object")
+    for b in co.bodies:
+        if b.trait != "serde_core::de::Deserializer" or ty_adt(b.self_ty) != KD:
+            continue
+        for x in [b] + co.closures_of(b):
+            for bb, t in x.calls():
+                if t["call"]["def"].startswith("serde_core::de::Visitor::visit_") and t["call"]["name"] in ("visit_some", "visit_newtype_struct", "visit_enum", "visit_seq", "visit_map"):
+                    nk += 1
+                    carrier = [tystr(q) for q in t["call"]["substs"][1:]]
+                    ctx.check(carrier == [KD], "R13.5", x.loc(t["ln"]), f"KeyDeserializer::{b.name}|{t['call']['name']}|carrier",
+                              f"KeyDeserializer::{b.name} hands {carrier} to {t['call']['name']}: the nested deserializer must be the KeyDeserializer itself, otherwise the string-to-number / bool key coercion is lost below an optional or newtype key",
+                              instance=f"KeyDeserializer::{b.name}: {t['call']['name']}(KeyDeserializer)")
+    ctx.floor("R13.5", "nested-deserializer hand-offs of the Any key deserializer", nk, 3)
